@@ -165,6 +165,7 @@ def run(ctx):
                         "reordering passes (nbRows 1..2, maxNbCells 2..4) and a runReorderingOnCells on 2..4 consecutive cells (counts in direct_drive); DP: Circuit::placeDetailed with callback, random accepted parameters. "
                         "NET WEIGHTS: 2 circuits in 3 of both streams carry nets of weight 0 (25 % of their nets) and of tiny weight 2^-1..2^-60 / 2^-120..2^-140 "
                         "(10 %) among the weights 0.5..2 (all accepted by addNet); Circuit::hpwl and the from-scratch wirelength count every net (counts: net_weights). "
+                        "STRESS STREAMS (checks/stress_streams.py; counts: stress_streams in direct_drive / placeDetailed_runs / closed_run_tie): (a) BIG OFFSET: 10 % more DO / DR / DW cases and 12 % more DP cases are circuits of the same generators TRANSLATED as a whole (rows, all cells) by 2^24 + odd, 2^25 + k (k not a multiple of 4), 2^26 + k, +-(2^30 - small) or -(2^24 + odd) in x and / or y (every coordinate strictly inside +-2^30, so pin coordinates and the sums of two coordinates the code forms fit an int; most of them do not fit a binary32 float); the shift pass is never run there (ops 5 / 7 dropped from DO lines, shiftMaxNbCells < 2 in DW / DP lines: lemon's int costs are limited to |v| < 2^22, an observation); every tie and every statement oracle applies to them unchanged (the models are over Z); (b) WIDE WINDOWS: >= 6 DO, >= 6 DR / DW and >= 6 DP cases per run are designed circuits whose row 0 holds 8..12 row-high cells next to each other (1..3 rows, 1..3 pads, n..2n+2 nets of 2..4 pins), driven with runReordering(nbRows 1..2, maxNbCells 6..8), runReorderingOnCells on 6..8 consecutive cells and Circuit::placeDetailed with reorderingMaxNbCells 6..8 (up to 8! = 40320 orderings per window; the extracted model needs 1-2 s per such window). "
                         "non-trivial = some op changed the placement (DO) / the run improved the wirelength (DP); distinct = distinct case lines",
                 "direct_drive": do.summary(dres), "placeDetailed_runs": dc.summary(cres),
                 "known_F8_matches": known, "known_F8_matches_end_vs_legalized": known_end,
